@@ -71,7 +71,17 @@ def check_ties(prop):
             broken.append('translator for gen/%s.v met a construct it does not support (fail-closed): %s' % (t, translators.FAILED[t]))
             continue
         vo = os.path.join(VERIF, 'coq', 'Tie', t + '.vo')
-        srcs = [os.path.join(VERIF, 'coq', 'Tie', t + '.v'), os.path.join(VERIF, 'coq', 'gen', t + '.v')]
+        gv, gvo = os.path.join(VERIF, 'coq', 'gen', t + '.v'), os.path.join(VERIF, 'coq', 'gen', t + '.vo')
+        srcs = [os.path.join(VERIF, 'coq', 'Tie', t + '.v'), gv, gvo]
+        if not os.path.exists(gv):
+            broken.append('gen/%s.v is missing' % t)
+            continue
+        if not os.path.exists(gvo) or os.path.getmtime(gvo) < os.path.getmtime(gv):
+            # never tie against a compiled fragment older than the fragment (make may have stopped before reaching it)
+            rc, out = sh('cd %s/coq && timeout 900 coqc -Q Model Model -Q Proofs Proofs -Q gen Gen gen/%s.v' % (VERIF, t))
+            if rc != 0:
+                broken.append('gen/%s.v does not compile: %s' % (t, out[-400:]))
+                continue
         if os.path.exists(vo) and all(os.path.exists(x) and os.path.getmtime(vo) >= os.path.getmtime(x) for x in srcs):
             continue       # built by make on this run from the current generated fragment
         cmd = ('cd %s/coq && timeout 900 coqc -Q Model Model -Q Proofs Proofs -Q Props Props -Q gen Gen -Q Tie Tie '
